@@ -145,12 +145,14 @@ fn unhex(s: &str) -> Vec<u8> {
 fn corpus_aux<T: RngCore + SeedableRng + Jumps>(name: &str, aux: &[(String, String, Vec<u8>)], out: &mut Vec<String>) {
     for (i, (t, op, seed)) in aux.iter().enumerate().filter(|(_, a)| a.0 == name) {
         let _ = t;
-        item(out, format!("{}/jump-special/{}/{}", name, op, i), |fx| {
+        item(out, format!("{}/value-directed/{}/{}", name, op, i), |fx| {
             let mut g = T::from_seed(mk_seed::<T>(seed));
             if op == "jump" {
                 g.do_jump();
-            } else {
+            } else if op == "long_jump" {
                 g.do_long_jump();
+            } else {
+                fx.u64(g.next_u32() as u64);
             }
             for _ in 0..3 {
                 fx.u64(g.next_u64());
@@ -244,6 +246,25 @@ fn corpus_type<T: RngCore + SeedableRng + Jumps>(name: &str, seed_len: usize, bl
             }
         });
     }
+    // block counters: 2^16 + 4 blocks from one object (array-based generators)
+    if block_words > 0 {
+        // (256-word blocks: 2^18 of them, so that a carry out of the 32-bit block counter arithmetic of
+        // ISAAC, whose chance grows with the block number, is certain to have occurred)
+        let nblocks: usize = if block_words >= 256 { 1 << 18 } else { 1 << 16 };
+        item(out, format!("{}/run-of-{}-blocks", name, nblocks), |fx| {
+            let mut g = T::from_seed(mk_seed::<T>(&seeds[1]));
+            let mut buf = vec![0u8; block_words * word_bytes * 64];
+            let mut acc = 0u64;
+            for _ in 0..(nblocks / 64) {
+                g.fill_bytes(&mut buf);
+                acc = acc.wrapping_mul(31).wrapping_add(u64::from_le_bytes(buf[buf.len() - 8..].try_into().unwrap()));
+            }
+            fx.u64(acc);
+            for _ in 0..(4 * block_words) {
+                fx.u64(g.next_u32() as u64);
+            }
+        });
+    }
     // long run
     item(out, format!("{}/long-run", name), |fx| {
         let mut g = T::from_seed(mk_seed::<T>(&seeds[3]));
@@ -265,7 +286,7 @@ struct Script {
     pos: AtomicUsize,
 }
 
-fn jitter(readings: Vec<u64>) -> (JitterRng<impl Fn() -> u64 + Send + Sync>, Arc<Script>) {
+fn jitter(readings: Vec<u64>) -> (JitterRng<impl Fn() -> u64 + Send + Sync + Clone>, Arc<Script>) {
     let s = Arc::new(Script { r: readings, pos: AtomicUsize::new(0) });
     let s2 = s.clone();
     let timer = move || {
@@ -306,10 +327,14 @@ enum Dev {
     Jump31,
     Jump32,
     Jump32p7,
+    Repeat2,
+    ProbePlus32,
+    ProbePlus3x32,
+    PrimePlus32,
     Wrap,
     Zero,
 }
-const DEVS: [Dev; 13] = [Dev::Repeat, Dev::Repeat3, Dev::SameDelta, Dev::SameDeltaSkip, Dev::Arith, Dev::BackOne, Dev::BackFar, Dev::Jump31m1, Dev::Jump31, Dev::Jump32, Dev::Jump32p7, Dev::Wrap, Dev::Zero];
+const DEVS: [Dev; 17] = [Dev::Repeat2, Dev::ProbePlus32, Dev::ProbePlus3x32, Dev::PrimePlus32, Dev::Repeat, Dev::Repeat3, Dev::SameDelta, Dev::SameDeltaSkip, Dev::Arith, Dev::BackOne, Dev::BackFar, Dev::Jump31m1, Dev::Jump31, Dev::Jump32, Dev::Jump32p7, Dev::Wrap, Dev::Zero];
 
 fn deviate(base: &[u64], pos: usize, kind: Dev) -> Vec<u64> {
     deviate_many(base, &[(pos, kind)])
@@ -339,6 +364,10 @@ fn deviate_many(base: &[u64], devs: &[(usize, Dev)]) -> Vec<u64> {
                 Dev::Jump31 => prev.wrapping_add(1 << 31),
                 Dev::Jump32 => prev.wrapping_add(1 << 32),
                 Dev::Jump32p7 => prev.wrapping_add((1 << 32) + 7),
+                Dev::Repeat2 => back(2),
+                Dev::ProbePlus32 => back(3).wrapping_add(1 << 32),
+                Dev::ProbePlus3x32 => back(3).wrapping_add(3 << 32),
+                Dev::PrimePlus32 => back(2).wrapping_add(1 << 32),
                 Dev::Wrap => u64::MAX - 2,
                 Dev::Zero => 0,
             };
@@ -421,6 +450,23 @@ fn corpus_jitter(depth: usize, vseed: u64, out: &mut Vec<String>) {
             }
         }
     }
+    // a long life of one object and its clone: 6000 collections (per-object accumulators)
+    item(out, "Jitter/long-life".into(), |fx| {
+        let n = 6000usize;
+        let (mut g, s) = jitter(raw_readings(vseed ^ 0x11FE, 7 * n + 64));
+        g.set_rounds(1);
+        let mut acc = 0u64;
+        for i in 0..n {
+            let v = if i % 3 == 0 { g.next_u32() as u64 } else { g.next_u64() };
+            acc = acc.wrapping_mul(0x9E3779B97F4A7C15).wrapping_add(v);
+            if i == n / 2 {
+                let mut c = g.clone();
+                acc ^= c.next_u64();
+            }
+        }
+        fx.u64(acc);
+        fx.u64(s.pos.load(Ordering::Relaxed) as u64);
+    });
     // long runs of consecutive stuck measurements in the second collection
     {
         let mut lens: Vec<usize> = (1..=10).collect();
@@ -496,7 +542,38 @@ fn corpus_jitter(depth: usize, vseed: u64, out: &mut Vec<String>) {
     });
 }
 
+#[cfg(feature = "serde")]
+mod sink_logger {
+    //! with the optional features on, rand_jitter's log statements are live: every record is formatted
+    pub struct Sink;
+    impl log::Log for Sink {
+        fn enabled(&self, _: &log::Metadata) -> bool {
+            true
+        }
+        fn log(&self, record: &log::Record) {
+            use std::fmt::Write;
+            struct Null(usize);
+            impl Write for Null {
+                fn write_str(&mut self, s: &str) -> std::fmt::Result {
+                    self.0 += s.len();
+                    Ok(())
+                }
+            }
+            let mut n = Null(0);
+            let _ = write!(n, "{}", record.args());
+            std::hint::black_box(n.0);
+        }
+        fn flush(&self) {}
+    }
+    pub static SINK: Sink = Sink;
+}
+
 fn main() {
+    #[cfg(feature = "serde")]
+    {
+        let _ = log::set_logger(&sink_logger::SINK);
+        log::set_max_level(log::LevelFilter::Trace);
+    }
     let args: Vec<String> = std::env::args().collect();
     let depth: usize = args.get(1).and_then(|s| s.parse().ok()).unwrap_or(2);
     let vseed: u64 = args.get(2).and_then(|s| s.parse::<i128>().ok()).map(|v| v as u64).unwrap_or(0);
@@ -514,10 +591,18 @@ fn main() {
                 .collect()
         })
         .unwrap_or_default();
+    // one thread per generator type; the outputs are concatenated in the fixed order below
+    let aux_ref = &aux;
+    std::thread::scope(|sc| {
+    let mut handles: Vec<std::thread::ScopedJoinHandle<Vec<String>>> = Vec::new();
     macro_rules! t {
         ($t:ty, $len:expr, $bw:expr, $wb:expr) => {{
-            corpus_type::<$t>(stringify!($t), $len, $bw, $wb, depth, vseed, &mut out);
-            corpus_aux::<$t>(stringify!($t), &aux, &mut out);
+            handles.push(sc.spawn(move || {
+                let mut out: Vec<String> = Vec::new();
+                corpus_type::<$t>(stringify!($t), $len, $bw, $wb, depth, vseed, &mut out);
+                corpus_aux::<$t>(stringify!($t), aux_ref, &mut out);
+                out
+            }));
         }};
     }
     t!(Xoroshiro64Star, 8, 0, 4);
@@ -539,7 +624,15 @@ fn main() {
     t!(Hc128Rng, 32, 16, 4);
     t!(IsaacRng, 32, 256, 4);
     t!(Isaac64Rng, 32, 256, 8);
-    corpus_jitter(depth, vseed, &mut out);
+    handles.push(sc.spawn(move || {
+        let mut out: Vec<String> = Vec::new();
+        corpus_jitter(depth, vseed, &mut out);
+        out
+    }));
+    for h in handles {
+        out.extend(h.join().expect("corpus thread"));
+    }
+    });
     let stdout = std::io::stdout();
     let mut w = std::io::BufWriter::new(stdout.lock());
     for l in &out {
